@@ -103,8 +103,10 @@ func negate(cond string) string {
 	return "!" + cond
 }
 
-// enumShapes yields every case of family A; yield returns false to stop.
-func enumShapes(yield func(Case) bool) {
+// enumShapes yields every case of family A; yield returns false to stop. With full=false (quick
+// tier) the longest chains (3 v-else-if) are combined with one sibling layout only and are left
+// out of the adjacent-chain and orphan products; everything else is the same full product.
+func enumShapes(full bool, yield func(Case) bool) {
 	idx := 0
 	emit := func(c Case) bool {
 		idx++
@@ -118,6 +120,7 @@ func enumShapes(yield func(Case) bool) {
 		for _, hasElse := range []bool{false, true} {
 			spec := chainSpec{nElif: nElif, hasElse: hasElse, prefix: "m", vars: condNames[:4]}
 			total := 1 << spec.conds()
+			reduced := !full && nElif == 3
 			for assign := 0; assign < total; assign++ {
 				spec.assign = assign
 				vars := spec.values(assign)
@@ -162,6 +165,9 @@ func enumShapes(yield func(Case) bool) {
 						}
 						for _, d := range decos {
 							for sib := 0; sib < 4; sib++ {
+								if reduced && sib != 3 {
+									continue
+								}
 								ms := spec.members(sep, ref)
 								v, nx := merge(vars, nil), merge(next, nil)
 								d.mod(ms, v, nx)
@@ -180,6 +186,9 @@ func enumShapes(yield func(Case) bool) {
 									return
 								}
 							}
+						}
+						if reduced {
+							continue
 						}
 						// two adjacent chains: the second one follows with the same separator
 						for _, sh2 := range []chainSpec{
@@ -370,9 +379,9 @@ func (g *nestGen) siblings(depth int, loopVars []string, lo, hi int) []Node {
 			sep = ""
 		}
 		switch k := rapid.IntRange(0, 19).Draw(g.t, "kind"); {
-		case k < 3:
+		case k < 2:
 			out = append(out, Node{Kind: "plain", M: g.marker(), Sep: sep})
-		case k < 6:
+		case k < 5:
 			out = append(out, Node{Kind: "plain", M: g.marker(), Sep: sep, Kids: g.kids(depth+1, loopVars, false)})
 		case k < 10 && len(loopVars) < 2 && depth < g.maxDepth:
 			v := fmt.Sprintf("it%d", len(loopVars)+1)
@@ -394,7 +403,19 @@ func (g *nestGen) siblings(depth int, loopVars []string, lo, hi int) []Node {
 			out = append(out, g.chain(depth, loopVars, sep)...)
 		}
 	}
+	if depth == 0 && !hasChain(out) {
+		out = append(out, g.chain(depth, loopVars, g.sep())...)
+	}
 	return out
+}
+
+func hasChain(nodes []Node) bool {
+	for i := range nodes {
+		if nodes[i].Kind == "if" || hasChain(nodes[i].Kids) {
+			return true
+		}
+	}
+	return false
 }
 
 func genCondValue(t *rapid.T, label string) vals.V {
@@ -407,7 +428,7 @@ func genCondValue(t *rapid.T, label string) vals.V {
 // genNest draws a random forest (chains inside chains inside loops) and its data.
 func genNest(rec *ev.Rec, open map[string]bool) func(*rapid.T) Case {
 	return func(t *rapid.T) Case {
-		g := &nestGen{t: t, maxDepth: rapid.IntRange(1, 4).Draw(t, "maxdepth")}
+		g := &nestGen{t: t, maxDepth: rapid.IntRange(2, 4).Draw(t, "maxdepth")}
 		c := Case{Vars: map[string]vals.V{}, Lists: map[string][]map[string]vals.V{}}
 		c.Nodes = g.siblings(0, nil, 1, 4)
 		for _, name := range condNames[:6] {
@@ -416,7 +437,7 @@ func genNest(rec *ev.Rec, open map[string]bool) func(*rapid.T) Case {
 			}
 		}
 		for _, list := range []string{"rows1", "rows2"} {
-			n := rapid.IntRange(0, 3).Draw(t, list)
+			n := []int{2, 1, 3, 2, 1, 3, 2, 0, 1, 2}[rapid.IntRange(0, 9).Draw(t, list)]
 			items := []map[string]vals.V{}
 			for i := 0; i < n; i++ {
 				it := map[string]vals.V{"id": vals.Str(fmt.Sprintf("%s%d", list[len(list)-1:], i))}
@@ -448,6 +469,14 @@ func genNest(rec *ev.Rec, open map[string]bool) func(*rapid.T) Case {
 				if n.For > 0 {
 					n.For = 0
 					rec.Excluded(fForIf)
+				}
+			}
+		}
+		if open[fForSkip] {
+			for _, n := range st.forSkipped {
+				if n.For > 0 {
+					n.For = 0
+					rec.Excluded(fForSkip)
 				}
 			}
 		}
